@@ -27,6 +27,60 @@ func runC10(c *an.Ctx) {
 	// lock; a state read before the lock can be CONFIGURED while the run has started meanwhile, and the run then ends
 	// without end timestamps
 	c.As(map[string]string{"R01c": "R10f"}, func() { r01c(c) })
+	r10g(c)
+}
+
+// R10g: "values of a previous run are never visible in the next": the run variables handed to the tasks with START are
+// pushed whenever they are present in the stack - an empty value is what clears the previous run's (run_end_time_ms is
+// reset to "" at START for exactly this purpose). A push that also depends on the value keeps the old one alive.
+func r10g(c *an.Ctx) {
+	c.Rule("R10g", "START arguments: a variable found in the stack is pushed whatever its value", 1)
+	fn := c.MustFn("core/environment", "StartActivityTransition.do")
+	if fn == nil {
+		return
+	}
+	n := 0
+	an.Instrs(fn, func(in ssa.Instruction) {
+		mu, ok := in.(*ssa.MapUpdate)
+		if !ok {
+			return
+		}
+		ex, isEx := mu.Value.(*ssa.Extract)
+		if !isEx || ex.Index != 0 {
+			return
+		}
+		lk, isLk := ex.Tuple.(*ssa.Lookup)
+		if !isLk || !lk.CommaOk {
+			return
+		}
+		n++
+		c.Subject()
+		var extra []string
+		for _, g := range an.ControlConds(mu.Block()) {
+			if g.LoopHeader || g.LoopExit || !an.Dominates(lk, g.If) {
+				continue
+			}
+			for _, a := range an.CondAtoms(g.V, g.Val) {
+				if e2, isE := a.X.(*ssa.Extract); isE && e2.Tuple == ssa.Value(lk) && e2.Index == 1 && a.Y == nil {
+					continue
+				}
+				p := c.PosStr(atomPos(a))
+				dup := false
+				for _, e := range extra {
+					dup = dup || e == p
+				}
+				if !dup {
+					extra = append(extra, p)
+				}
+			}
+		}
+		sort.Strings(extra)
+		c.Ob(fmt.Sprintf("core/environment.StartActivityTransition.do|push#%d|present-is-pushed", n), mu.Pos(), len(extra) == 0,
+			"whether a run variable found in the stack is handed to the tasks depends on more than its presence (conditions at %v): a cleared value (e.g. run_end_time_ms reset to \"\" for the new run) is not pushed and the tasks keep the previous run's", extra)
+	})
+	if n == 0 {
+		c.Lost("the copy of run variables from the variable stack into the START arguments")
+	}
 }
 
 type varWrite struct {
